@@ -46,15 +46,17 @@ def _yields(fn_node: ast.AST) -> List[ast.AST]:
 
 
 def run(repo: Repo, rep: Report, tier: str) -> None:
+    from sa.report import guarded as _guarded
+
     mod = repo.module(MOD)
     decoders = {q: f for q, f in mod.functions.items() if "." not in q and _response_param(f)}
     rep.count("decoders", sorted(decoders))
     for need in ("iter_sse", "iter_ndjson", "iter_sse_events_text", "iter_bytes"):
         rep.require(need in decoders, f"R18.1: decoder {need} vanished from streaming_helpers")
     decoder_names = set(decoders)
-    rule_truth_tested_instances(repo, rep, "R18.5")
-    rule_lines_untouched(repo, rep, "R18.6")
-    rule_decoder_state_is_per_stream(repo, rep, "R18.7")
+    _guarded(rep, rule_truth_tested_instances, repo, rep, "R18.5")
+    _guarded(rep, rule_lines_untouched, repo, rep, "R18.6")
+    _guarded(rep, rule_decoder_state_is_per_stream, repo, rep, "R18.7")
 
     # ---------------------------------------------------------------- R18.1
     for q, fn in sorted(decoders.items()):
